@@ -313,7 +313,7 @@ func runC27(c *Ctx) {
 				return
 			}
 			for i, p := range pf.Params {
-				if strings.Contains(u.Describe(cv.X), "conv:[]byte("+p.Name()+")") {
+				if strings.Contains(u.Describe(cv.X), "conv:[]byte("+u.VarName(p)+")") {
 					framed[i] = true
 				}
 			}
@@ -338,7 +338,7 @@ func runC27(c *Ctx) {
 					name = u.CalleeName(&call.Call)
 				}
 				why, ok := bounded[name]
-				r.Check(ok, "R-LEN-PREFIX", shortName(cs.Fn)+"|"+pf.Params[i].Name(), u.Pos(cs.Instr.Pos()), "16-bit framed field is length-bounded: "+name+" ("+why+")", "field "+pf.Params[i].Name()+" is framed with a 16-bit length but its value "+u.Describe(cs.Arg(i))+" has no length bound: a value over 65535 bytes shifts the later fields on unpack")
+				r.Check(ok, "R-LEN-PREFIX", shortName(cs.Fn)+"|"+u.VarName(pf.Params[i]), u.Pos(cs.Instr.Pos()), "16-bit framed field is length-bounded: "+name+" ("+why+")", "field "+u.VarName(pf.Params[i])+" is framed with a 16-bit length but its value "+u.Describe(cs.Arg(i))+" has no length bound: a value over 65535 bytes shifts the later fields on unpack")
 			}
 		}
 		// the two bounding validators really bound
